@@ -82,6 +82,7 @@ static void one_stream(const cipher *C, int kp, int api /*0 stream,1 xor,2 xor_i
             else r = C->xic64(o + 16, m, len, nonce, ic, key);
         }
         n_eval++; if (len) n_nontriv++;
+        if (len == 65 + (size_t) (kp * 64)) VF_SAMPLE_CASE(4, "%s %s len=%zu initial_counter=%" PRIu64 " key/nonce pattern %s, buffer offset %d: key=%s nonce=%s output[0..16)=%s (equal to the reference)", C->name, api == 0 ? "stream" : api == 1 ? "xor" : "xor_ic", len, ic, vf_patname[kp], al, vf_hex(key, 32), vf_hex(nonce, (size_t) C->noncelen), vf_hex(o + 16, 16));
         if (r != 0 || memcmp(o + 16, want, len) != 0 || o[15] != 0xA5 || o[16 + len] != 0xA5) {
             size_t d = 0; while (d < len && o[16 + d] == want[d]) d++;
             snprintf(keystr, sizeof keystr, "%s/%s/len=%zu/ic=%" PRIu64 "/pat=%s/al=%d", C->name, api == 0 ? "stream" : api == 1 ? "xor" : "xor_ic", len, ic, vf_patname[kp], al);
